@@ -933,7 +933,7 @@ theorem solve_K (strategy : Nat) (eps : Rat) : ∀ (fuel : Nat) (s : RS) (counte
     (solve strategy eps fuel s counter it).1.K = s.K := by
   intro fuel
   induction fuel with
-  | zero => intro s _ _; rfl
+  | zero => intro s _ _; show s.unshrink.K = s.K; unfold State.unshrink; split <;> rfl
   | succ fuel ih =>
     intro s counter it
     obtain ⟨hev, hnext⟩ := solveIter_K strategy eps s counter
